@@ -479,7 +479,9 @@ impl InnerLocustDB {
 
     fn query_column_names(&self, table: &str) -> Result<Vec<String>, QueryError> {
         let receiver = self.schedule_query_column_names(table)?;
-        let mut result = block_on(receiver).unwrap()?;
+        // This is reached from the async fn LocustDB::ingest_efficient, i.e. possibly from inside a caller's
+        // `futures::executor::block_on`, where a nested block_on panics: wait for the answer on a helper thread.
+        let mut result = std::thread::scope(|s| s.spawn(|| block_on(receiver)).join().unwrap()).unwrap()?;
         assert!(result.columns.len() == 1, "Expected 1 column");
         let column_names = match result.columns.pop().unwrap() {
             (_, BasicTypeColumn::String(names)) => Ok(names.into_iter().collect()),
